@@ -392,6 +392,13 @@ CLASSIFICATION = [
     ("gemini://host.example/docs/a.txt\r\n", True, "GeminiProtocol"), ("gemini://host.example/docs/a.txt\r\n", False, "GopherProtocol"),
     ("host.example /docs/a.txt 0\r\n", False, "SpartanProtocol"), ("host.example /upload 12\r\n", False, "SpartanProtocol"),
     ("host.example /docs/a.txt 0\r\n", True, "SecureGopherProtocol"), ("host.example /docs/a.txt x\r\n", False, "GopherProtocol"),
+    # near misses: blanks around an otherwise well-formed line are not part of any of the shapes
+    (" GET /docs/a.txt HTTP/1.0\r\n", False, "GopherProtocol"), ("GET /docs/a.txt HTTP/1.0 \r\n", False, "GopherProtocol"),
+    (" GET /docs/a.txt HTTP/1.0\r\n", True, "SecureGopherProtocol"), (" GET /wap/docs HTTP/1.0\r\n", False, "GopherProtocol"),
+    ("GET  /docs/a.txt HTTP/1.0\r\n", False, "GopherProtocol"),
+    (" gemini://host.example/docs/a.txt\r\n", True, "SecureGopherProtocol"), ("\x0bgemini://host.example/\r\n", True, "SecureGopherProtocol"),
+    ("\u00a0host.example /docs/a.txt 0\r\n", False, "GopherProtocol"), ("host.example /docs/a.txt 0\u2003\r\n", False, "GopherProtocol"),
+    ("host.example /docs/a.txt  0\r\n", False, "GopherProtocol"),
 ]
 
 
